@@ -1,5 +1,6 @@
 import JPV.Impl.NonDet
 import JPV.Proofs.NonDetEval
+import JPV.Proofs.NonDetDepthAux
 namespace JPV.Proofs
 open JPV JPV.Impl
 
@@ -9,12 +10,22 @@ continuation does with the nodes it is handed, as long as it does not fail itsel
 of the model's fuel. -/
 theorem nd_visit_raises (max : Int) (root : Node) (s : ND.Script) (k : Node → ND.Script → ND.Out)
     (hk : ∀ n s', (k n s').err = none) (h1 : 1 ≤ max) (hd : max < (root.val.depth : Int)) :
-    (ND.visit max root s k).err = some .recursion := by sorry
+    (ND.visit max root s k).err = some .recursion :=
+  (NDd.visit_spec (mx := max) (k := k) (fun n s' => Or.inl (hk n s')) root s).2 h1 hd
 
 /-- query level, `$..<selectors>` as the first segment: deeper than the limit ⇒ JSONPathRecursionError for every script -/
 theorem nd_find_raises (env : Env) (sels : List Selector) (rest : List Segment) (v : Json) (s : ND.Script)
     (hff : Spec.filterFree (.desc sels :: rest) = true)
     (h1 : 1 ≤ env.maxDepth) (hd : env.maxDepth < (v.depth : Int)) :
-    ND.find env (.desc sels :: rest) v s = .error .recursion := by sorry
+    ND.find env (.desc sels :: rest) v s = .error .recursion := by
+  simp only [Spec.filterFree, List.all_cons, Bool.and_eq_true] at hff
+  have hk : NDd.KRec (fun m s' =>
+      ND.runSels env v (fun m2 s2 => ND.runSegs env v rest m2 s2) sels m s') :=
+    fun m s' => NDd.runSels_krec env v (NDd.runSegs_krec env v rest hff.2) sels hff.1 m s'
+  have hv := (NDd.visit_spec hk ⟨[], v⟩ s).2 h1 hd
+  have hrun : (ND.runSegs env v (.desc sels :: rest) ⟨[], v⟩ s).err = some .recursion := by
+    simp only [ND.runSegs]
+    exact hv
+  simp only [ND.find, hrun]
 
 end JPV.Proofs
